@@ -110,6 +110,20 @@ func (r *RibEntry) pruneIfEmpty() {
 }
 
 func (r *RibEntry) updateNexthopsEnc() {
+	// A node without a name only fills the path to a longer prefix: it never
+	// had routes and owns no FIB entry (a nil name would address the root entry)
+	if r.Name != nil {
+		r.updateOwnNexthopsEnc()
+	}
+
+	// Trigger update for all children for inheritance
+	for child := range r.children {
+		child.updateNexthopsEnc()
+	}
+}
+
+// updateOwnNexthopsEnc recomputes the FIB next hops of this entry only.
+func (r *RibEntry) updateOwnNexthopsEnc() {
 	FibStrategyTable.ClearNextHopsEnc(r.Name)
 
 	// All routes including parents if needed
@@ -139,11 +153,6 @@ func (r *RibEntry) updateNexthopsEnc() {
 	// Add "flattened" set of nexthops
 	for nexthop, cost := range minCostRoutes {
 		FibStrategyTable.InsertNextHopEnc(r.Name, nexthop, cost)
-	}
-
-	// Trigger update for all children for inheritance
-	for child := range r.children {
-		child.updateNexthopsEnc()
 	}
 }
 
